@@ -39,11 +39,13 @@ def case_strategy(draw):
         c["success"] = draw(st.sampled_from(["omitted", "present", "present", "absent"]))
         c["pick"] = draw(st.integers(0, 5))
         c["fn"] = draw(st.sampled_from(["binary", "B"]))
+        c["keyword"] = draw(st.booleans())
     elif kind == "offset":
-        c["arg"] = draw(st.sampled_from(["x", "z", "2", "2.5", "-2", "1 + 1", "-1.5", "3 * 2", "np.log(p)", "x * 2", "-x", "0"]))
+        c["arg"] = draw(st.sampled_from(["x", "z", "k", "2", "2.5", "-2", "1 + 1", "-1.5", "3 * 2", "np.log(p)", "x * 2", "-x", "0", "k + 1"]))
     elif kind == "prop":
         c["fn"] = draw(st.sampled_from(["prop", "p", "proportion"]))
         c["trials"] = draw(st.sampled_from(["n", "n", "40", "trials=n", "trials=40", "n + 1"]))
+        c["float_counts"] = draw(st.integers(0, 3)) == 0  # integer-valued float columns are valid counts
     elif kind == "prop_invalid":
         c["what"] = draw(st.sampled_from(["float_successes", "successes_gt_trials", "successes_gt_trials_one_row", "float_successes_one_row", "float_trials", "float_constant", "successes_not_a_name"]))
     elif kind == "identity":
@@ -117,7 +119,7 @@ def judge(ctx, case):
             s, arg = uniq[0], ""
         elif mode == "present":
             s = uniq[case["pick"] % len(uniq)]
-            arg = ", " + lit(s)
+            arg = (", success=" if case.get("keyword") else ", ") + lit(s)
         else:
             s = "zz" if isinstance(uniq[0], str) else (0 if 0 not in uniq and not isinstance(uniq[0], bool) else 77)
             arg = ", " + lit(s)
@@ -156,7 +158,8 @@ def judge(ctx, case):
         formula = f"y ~ 1 + offset({arg})"
         done(formula, extra=["offset:" + ("column" if arg in ("x", "z") else ("call" if any(c.isalpha() for c in arg) else "constant"))])
         full = dict(case, formula=formula)
-        env = {"x": frame["x"].to_numpy(dtype=float), "z": frame["z"].to_numpy(dtype=float), "p": frame["p"].to_numpy(dtype=float), "np": np}
+        env = {"x": frame["x"].to_numpy(dtype=float), "z": frame["z"].to_numpy(dtype=float), "p": frame["p"].to_numpy(dtype=float), "np": np,
+               "k": frame["k"].to_numpy(dtype=float)}
         try:
             dm = build(formula)
             name = [t for t in dm.common.terms if t.startswith("offset")][0]
@@ -168,7 +171,8 @@ def judge(ctx, case):
         if got.shape != (len(frame), 1) or not np.allclose(got[:, 0], want, rtol=1e-12, atol=0):
             ctx.fail("offset", full, f"{formula!r}: the offset column is not {arg} (broadcast)", "training_values")
         new = new_frame(case)
-        env2 = {"x": new["x"].to_numpy(dtype=float), "z": new["z"].to_numpy(dtype=float), "p": new["p"].to_numpy(dtype=float), "np": np}
+        env2 = {"x": new["x"].to_numpy(dtype=float), "z": new["z"].to_numpy(dtype=float), "p": new["p"].to_numpy(dtype=float), "np": np,
+                "k": new["k"].to_numpy(dtype=float)}
         try:
             with core.Guard():
                 g2 = col_of(dm.common.evaluate_new_data(new)[name])
@@ -185,8 +189,12 @@ def judge(ctx, case):
         done(formula, extra=["trials:" + case["trials"]])
         full = dict(case, formula=formula)
         texpr = case["trials"].replace("trials=", "")
+        if case.get("float_counts"):
+            frame = frame.copy()
+            frame["s"] = frame["s"].astype(float)
+            frame["n"] = frame["n"].astype(float)
         try:
-            dm = build(formula)
+            dm = build(formula, frame)
             got = np.asarray(dm.response.design_matrix)
         except Exception as e:  # pylint: disable=broad-except
             ctx.fail("prop", full, f"{formula!r} raised {type(e).__name__}: {e}", "training:" + core.exc_key(e))
